@@ -21,7 +21,7 @@ ANCHORS = ["runlengtharray.py::RunLength2dArray.from_array", "runlengtharray.py:
 OPS = ["decode", "meta", "rows", "elem", "col_int", "col_slice", "red_row", "red_col", "ravel", "concat", "npfunc", "unary", "scalar", "colvec", "intervals"]
 FLOOR_TAGS = ["op:" + o for o in OPS] + ["variant:2d", "variant:ragged", "variant:ragged_from_matrix", "rows:int", "rows:slice", "rows:list", "rows:mask",
                                          "cs:pos", "cs:neg", "side:L", "side:R", "red:argmax", "red:mean", "col:sum", "col:mean", "col:col_counts", "col:any", "j:neg",
-                                         "kind:b", "kind:i", "kind:u", "kind:f"]
+                                         "kind:b", "kind:i", "kind:u", "kind:f", "order:F", "order:T", "source:lazyrows", "source:lazychain"]
 FLOOR_MONITORS = ["c17:compare", "inv:rla", "inv:ragged"]
 N_RANDOM = {"quick": 20000, "thorough": 300000}
 
@@ -56,12 +56,27 @@ def build(case):
     dt = np.dtype(case["dtype"])
     rows = [np.array(r).astype(dt) for r in case["rows"]]
     v = case["variant"]
+    order = case.get("order", "C")
+
+    def mat():
+        m = np.array(rows, dtype=dt)
+        if order == "F":
+            return np.asfortranarray(m)
+        if order == "T":
+            return np.ascontiguousarray(m.T).T
+        return m
     if v == "2d":
-        return lib.RunLength2dArray.from_array(np.array(rows, dtype=dt)), rows
+        return lib.RunLength2dArray.from_array(mat()), rows
     if v == "ragged":
-        return lib.RunLengthRaggedArray.from_ragged_array(lib.RaggedArray([r.copy() for r in rows], dtype=dt)), rows
+        src_kind = case.get("source", "fresh")
+        if src_kind == "fresh":
+            src = lib.RaggedArray([r.copy() for r in rows], dtype=dt)
+        else:       # the ragged source is an unmaterialised selection with the same rows
+            from . import c02
+            src, _ = c02.build_receiver(src_kind, np.concatenate(rows), [len(r) for r in rows])
+        return lib.RunLengthRaggedArray.from_ragged_array(src), rows
     if v == "ragged_from_matrix":
-        return lib.RunLengthRaggedArray.from_array(np.array(rows, dtype=dt)), rows
+        return lib.RunLengthRaggedArray.from_array(mat()), rows
     raise ValueError(v)
 
 
@@ -94,7 +109,7 @@ def run(case):
 
     variant = case["variant"]
     dt = np.dtype(case["dtype"])
-    tags += ["variant:" + variant, "kind:" + dt.kind]
+    tags += ["variant:" + variant, "kind:" + dt.kind, "order:" + case.get("order", "C"), "source:" + case.get("source", "fresh")]
     c = attempt(build, case)
     pyrows = case["rows"]
     if not c.ok:
@@ -301,6 +316,10 @@ def gen_case(rng, tier, op=None, variant=None, dtype=None):
         pyrows = gen_rows(rng, dtype, variant != "ragged", tier)
         n = len(pyrows)
         c = {"op": op, "variant": variant, "dtype": dtype, "rows": pyrows}
+        if variant != "ragged":
+            c["order"] = rng.choice(["C", "C", "F", "T"])
+        elif rng.random() < 0.3:
+            c["source"] = rng.choice(["lazyrows", "lazycols+2", "lazycols-1", "lazychain"])
         if op in ("decode", "meta", "ravel"):
             return c
         if op == "rows":
@@ -376,6 +395,11 @@ def directed():
         for side in "LR":
             yield {"op": "scalar", "variant": "2d", "dtype": "int64", "rows": [[1, 1, 2], [3, 3, 3]], "uf": uf, "side": side, "scalar": 2}
             yield {"op": "colvec", "variant": "ragged", "dtype": "int64", "rows": [[1, 1, 2], [3], [5, 5]], "uf": uf, "side": side, "col": [1, 2, 3]}
+    # 64-bit values beyond 2**63 whose column sums still fit the dtype (numpy's own sum is exact there)
+    for dtype, big in (("uint64", 2 ** 63 + 5), ("uint64", 2 ** 64 - 20), ("int64", 2 ** 62)):
+        for variant in ("2d", "ragged"):
+            yield {"op": "red_col", "variant": variant, "dtype": dtype, "rows": [[big, 1, 1, 3], [2, 2, 7, 7], [3, 0, 0, big]], "name": "sum"}
+            yield {"op": "npfunc", "variant": "ragged", "dtype": dtype, "rows": [[big, 1], [2, 2, 7], [0, 3, big]], "name": "sum", "axis": 0}
     for rows in ([[True, True, False], [False, False, True]], [[False] * 4, [True] * 4]):
         yield {"op": "red_col", "variant": "2d", "dtype": "bool", "rows": rows, "name": "sum"}
         yield {"op": "red_col", "variant": "2d", "dtype": "bool", "rows": rows, "name": "any"}
